@@ -785,6 +785,22 @@ class Passive(taps.Observer):
                     self._violation(f"C18:{op}:differs-from-copying:shape:{kclass(s.ocls)}",
                                     f"{op}: target has shape {now.shape}, the copying call returns shape {ev_.shape}", self._case(op, s))
                     continue
+            # when the target keeps a unit of another *scale* than the copying call's result (units with a numeric
+            # coefficient such as "3*km": the copying call simplifies to km, the target stays labelled 3*km), "the numbers
+            # of the copying call" are compared as the same quantity: the copying numbers are brought to the target's scale
+            rescaled = False
+            eu0 = getattr(e, "units", None); tu0 = getattr(s.obj, "units", None)
+            if getattr(eu0, "is_Unit", False) and getattr(tu0, "is_Unit", False):
+                try:
+                    se, st_ = usnap(eu0), usnap(tu0)
+                    if (se[3] is st_[3] or se[3] == st_[3]) and not (se[2] or 0.0) and not (st_[2] or 0.0) \
+                            and se[1] and st_[1] and not _close(se[1], st_[1]) and ev_.dtype.kind in "fc":
+                        with np.errstate(all="ignore"):
+                            ev_ = ev_ * (se[1] / st_[1])
+                        rescaled = True
+                        self._count("twin-compared-as-quantity")
+                except Exception:
+                    pass
             with np.errstate(all="ignore"):
                 import warnings as _w
                 with _w.catch_warnings():
@@ -801,6 +817,14 @@ class Passive(taps.Observer):
                 except Exception:
                     self._count("twin-where-not-comparable")
                     continue
+            if rescaled:
+                if _ulp_close(exp, cmp_now, 8):
+                    self._ok(("twin-quantity", op, s.ocls))
+                else:
+                    self._violation(f"C18:{op}:differs-from-copying:quantity:{kclass(s.ocls)}",
+                                    f"{op}: target holds {_short(cmp_now)} {tu0} but the corresponding copying call on the pre-call operands gives {_short(np.asarray(nd(e) if isinstance(e, np.ndarray) else e))} {eu0} (another quantity)",
+                                    self._case(op, s, target=_short(cmp_now), copying=_short(exp), before=_short(s.vals)))
+                continue
             if not (exp.tobytes() == cmp_now.tobytes() or _num_equal(exp, cmp_now)):
                 if op.startswith("convert_to_") and now.dtype.kind in "fc" and _feps(now.dtype) > 1e-4:
                     # a 16-bit float cannot hold conversion factors: overflow/underflow of the in-place chain is inherent in the storage type
